@@ -190,23 +190,24 @@ type dev struct {
 
 type world struct {
 	*drv.World
-	r         *ev.Result
-	rng       *rand.Rand
-	devs      map[uint32]*dev
-	ids       []uint32 // insertion order (deterministic iteration)
-	file      []byte   // expected equipment-authorizations.dat
-	offset    uint32
-	now       uint32
-	before    *server.VerifSnap
-	history   []string          // ops so far (replay)
-	archive   map[uint32][]byte // archived week -> body as first published
-	opN       int
-	poisoned  bool // invariants broken: the server cannot be closed any more
-	stop      bool
-	foreign   refenc.Key
-	savedViol int
-	restarts  int
-	forceID   *uint32 // next fresh id (probes with the extreme ids 0 and 2^32-1)
+	r          *ev.Result
+	rng        *rand.Rand
+	sparseNext bool // the next authorization is posted as a sparse JSON body
+	devs       map[uint32]*dev
+	ids        []uint32 // insertion order (deterministic iteration)
+	file       []byte   // expected equipment-authorizations.dat
+	offset     uint32
+	now        uint32
+	before     *server.VerifSnap
+	history    []string          // ops so far (replay)
+	archive    map[uint32][]byte // archived week -> body as first published
+	opN        int
+	poisoned   bool // invariants broken: the server cannot be closed any more
+	stop       bool
+	foreign    refenc.Key
+	savedViol  int
+	restarts   int
+	forceID    *uint32 // next fresh id (probes with the extreme ids 0 and 2^32-1)
 }
 
 func overCapacity(power, capacity uint64) bool {
@@ -823,7 +824,14 @@ func (w *world) surfaces(s *server.VerifSnap, x expect) {
 
 func (w *world) authorize(a refenc.Auth) (int, bool) {
 	// not retried: a retransmitted authorization is a different history
-	st, _, err := w.Authorize(a)
+	post := w.Authorize
+	if w.sparseNext || w.rng.Intn(5) == 0 {
+		// an equivalent body: members with zero values absent, another member order
+		post = w.AuthorizeSparse
+		w.r.Count("requests.sparse_json_body", 1)
+	}
+	w.sparseNext = false
+	st, _, err := post(a)
 	if err != nil {
 		w.r.Inconc("authorize-equipment request failed: " + err.Error())
 		w.stop = true
@@ -1174,15 +1182,30 @@ func (w *world) opConflict(field string, keyRel string, d *dev) {
 	case "Debt":
 		keyRel = "same"
 		a.Debt ^= 1 << uint(w.rng.Intn(64))
+		if d.auth.Debt != 0 && w.rng.Intn(3) == 0 { // the debt is forgiven: the member is zero and, in a sparse body, absent
+			a.Debt, w.sparseNext = 0, true
+		}
 	case "Expiration":
 		keyRel = "same"
 		a.Expiration ^= 1 << uint(w.rng.Intn(32))
+		if d.auth.Expiration != 0 && w.rng.Intn(3) == 0 {
+			a.Expiration, w.sparseNext = 0, true
+		}
 	case "Initialization":
 		keyRel = "same"
 		a.Initialization ^= 1 << uint(w.rng.Intn(32))
+		if d.auth.Initialization != 0 && w.rng.Intn(3) == 0 {
+			a.Initialization, w.sparseNext = 0, true
+		}
 	case "ProtocolFee":
 		keyRel = "same"
 		a.Fee ^= 1 << uint(w.rng.Intn(64))
+		if d.auth.Fee != 0 && w.rng.Intn(3) == 0 {
+			a.Fee, w.sparseNext = 0, true
+		}
+	}
+	if w.sparseNext {
+		w.r.Count("conflict.field_zeroed_and_absent_from_body", 1)
 	}
 	if bytes.Equal(a.Bytes()[:84], d.auth.Bytes()[:84]) {
 		// e.g. the "banned device's key" is the key this device itself was registered with (new id with a banned
